@@ -15,7 +15,9 @@ var BoundaryAlgorithms = []uint32{1, 2, 127, 128, 255, 256, 257, 511, 512, 65535
 var canonicalExts = []string{"txt", "json", "csv", "xml", "pdf", "tiff", "jpg", "png", "svg", "webp", "avif", "gif", "apng", "mpeg", "mp4", "webm", "ogg", "heic", "raw", "rdf", "bin", "jpeg", "tif"}
 
 // controls: extensions Validate must reject
-var badExts = []string{"", "a", "abcdefg", "RDF", "Jpg", "a.b", "a-b", "a b", "é1", "a/b", "ab\n", "ab%"}
+var badExts = []string{"", "a", "abcdefg", "RDF", "Jpg", "a.b", "a-b", "a b", "é1", "a/b", "ab\n", "ab%",
+	// the offending character in the FIRST and in the LAST position (the IRI separator among them)
+	".abc", ".b", "..", ".rdf", "-ab", " ab", "/ab", "%ab", "Abc", "ab.", "abc-", "rdf.", "ab ", "abcde.", ".bcdef"}
 
 const extAlphabet = "0123456789abcdefghijklmnopqrstuvwxyz"
 
